@@ -48,6 +48,7 @@ class WatchProject:
         open(self.trace, 'w').close()
         self.gate_fd = {}
         self.version = {}
+        self.bad = {}
         os.makedirs(os.path.join(d, 'gates'))
         os.makedirs(os.path.join(d, 'out'))
         lines = ['targets:']
@@ -81,25 +82,38 @@ class WatchProject:
                     os.mkfifo(gp)
                     self.gate_fd[t] = os.open(gp, os.O_RDWR)
                     g = 'exec 3<>%s\nread x <&3\n' % gp
-                script = ('v=%s\necho "start %s $$ $(date +%%s.%%N) $v" >> %s\n%secho "$v" > out/%s.txt.tmp~\nmv out/%s.txt.tmp~ out/%s.txt\n'
-                          'echo "end %s 0 $(date +%%s.%%N) $v" >> %s' % (stamp, t, self.trace, g, t, t, t, t, self.trace))
+                script = ('ts=$(date +%%s.%%N)\nv=%s\necho "start %s $$ $ts $v" >> %s\n%s'
+                          'case "$v" in *\\!*) echo "end %s 1 $(date +%%s.%%N) $v" >> %s; exit 1;; esac\n'
+                          'echo "$v" > out/%s.txt.tmp~\nmv out/%s.txt.tmp~ out/%s.txt\n'
+                          'echo "end %s 0 $(date +%%s.%%N) $v" >> %s' % (stamp, t, self.trace, g, t, self.trace, t, t, t, t, self.trace))
                 lines.append('    build: |')
             else:
-                script = 'v=%s\necho "start %s $$ $(date +%%s.%%N) $v" >> %s\nexec sleep 100000' % (stamp, t, self.trace)
+                script = 'ts=$(date +%%s.%%N)\nv=%s\necho "start %s $$ $ts $v" >> %s\nexec sleep 100000' % (stamp, t, self.trace)
                 lines.append('    service: |')
             for l in script.split('\n'):
                 lines.append('      ' + l)
         with open(os.path.join(d, 'zinoma.yml'), 'w') as f:
             f.write('\n'.join(lines) + '\n')
 
-    def set_version(self, t, v, log=True):
+    def set_version(self, t, v, log=True, mode='write', bad=False):
+        """mode 'write': rewrite the file in place; 'rename': write elsewhere and rename over it (atomic save);
+        bad: the content makes t's own script exit 1"""
         self.version[t] = v
+        self.bad[t] = bad
         p = os.path.join(self.dir, 'in', t, 'v.txt')
-        with open(p, 'w') as f:
-            f.write('%s%d\n' % (t, v))
+        content = '%s%d%s\n' % (t, v, '!' if bad else '')
+        if mode == 'rename' and os.path.exists(p):
+            os.makedirs(os.path.join(self.dir, 'elsewhere'), exist_ok=True)
+            tmp = os.path.join(self.dir, 'elsewhere', '%s.%d.new' % (t, v))
+            with open(tmp, 'w') as f:
+                f.write(content)
+            os.replace(tmp, p)
+        else:
+            with open(p, 'w') as f:
+                f.write(content)
         if log:
             with open(self.trace, 'a') as f:
-                f.write('change %s %d %.6f\n' % (t, v, time.time()))
+                f.write('change %s %d %.6f %s%s\n' % (t, v, time.time(), mode, ' bad' if bad else ''))
 
     def read_trace(self):
         out = []
@@ -114,7 +128,7 @@ class WatchProject:
         s = self.T[t]
         parts = []
         if s['own_input']:
-            parts.append('%s%d' % (t, self.version[t]))
+            parts.append('%s%d%s' % (t, self.version[t], '!' if self.bad.get(t) else ''))
         for p in s['producers']:
             try:
                 parts.append('%s=%s' % (p, open(os.path.join(self.dir, 'out', p + '.txt')).read().strip()))
@@ -190,7 +204,10 @@ def scenario(rng, T, roots, gated, plan, tag='wt'):
             if step[0] == 'idle':
                 wait_quiet(proj, proc, released, True, QUIET_S)
             elif step[0] == 'change':
-                proj.set_version(step[1], proj.version[step[1]] + 1)
+                proj.set_version(step[1], proj.version[step[1]] + 1, mode=rng.choice(['write', 'write', 'rename']))
+                time.sleep(rng.choice([0, 0.01, 0.05]))
+            elif step[0] == 'break':
+                proj.set_version(step[1], proj.version[step[1]] + 1, bad=True)
                 time.sleep(rng.choice([0, 0.01, 0.05]))
             elif step[0] == 'burst':
                 for _ in range(step[2]):
@@ -217,9 +234,27 @@ def scenario(rng, T, roots, gated, plan, tag='wt'):
         if proc.poll() is not None:
             bad('C06', 'zinoma --watch exited (status %s)' % proc.returncode)
         stale = []
+        # C07 in watch mode: while the last finished run of a dependency is a failure, no dependent starts
+        last_end = {}
+        for f in tr:
+            if f[0] == 'end':
+                last_end[f[1]] = f[2]
+            elif f[0] == 'start':
+                for p in T[f[1]]['producers'] + T[f[1]]['deps']:
+                    if last_end.get(p) == '1':
+                        bad('C07', '%s started although the last run of its dependency %s had failed and was not repaired yet' % (f[1], p))
         for t in sorted(clo):
             s = T[t]
             if s['kind'] == 'aggregate':
+                continue
+            if proj.bad.get(t):
+                # the current input makes the script fail: the failure must have been reported by a run after the change
+                if s['kind'] == 'build' and last_end.get(t) != '1':
+                    text = '%s: its input was changed to a version that makes its script fail, but no failing run followed' % t
+                    if absorbed_during_own_run(proj, T, tr, t):
+                        known.append(('KF1-change-during-own-build', text))
+                    else:
+                        bad('C06', text)
                 continue
             want = proj.expected_stamp(t)
             if s['kind'] == 'build':
@@ -303,25 +338,21 @@ def absorbed_during_own_run(proj, T, tr, t):
     t_end = tm(ends[-1]) if ends and tm(ends[-1]) and tm(ends[-1]) >= t_start else None
     if t_start is None or t_end is None:
         return False
-    last_read = starts[-1][4] if len(starts[-1]) > 4 else ''
-    # the instants at which t's inputs took their present value
-    changes = []
+    # the instants at which t's inputs last changed: its own input (harness change lines) and the outputs of its producers
+    # (written just before the producer's successful end line)
+    times = []
     if T[t]['own_input']:
-        cur = '%s%d' % (t, proj.version[t])
-        if cur not in last_read.split(' '):
-            cs = [f for f in tr if f[0] == 'change' and f[1] == t]
-            if cs:
-                changes.append(tm(cs[-1]))
+        cs = [f for f in tr if f[0] == 'change' and f[1] == t]
+        if cs:
+            times.append(tm(cs[-1]))
     for p in T[t]['producers']:
-        pe = [f for f in tr if f[0] == 'end' and f[1] == p]
+        pe = [f for f in tr if f[0] == 'end' and f[1] == p and f[2] == '0']
         if pe:
-            produced = pe[-1][4] if len(pe[-1]) > 4 else ''
-            if ('%s=%s' % (p, produced)) not in last_read:
-                changes.append(tm(pe[-1]))
-    changes = [c for c in changes if c is not None]
-    if not changes:
+            times.append(tm(pe[-1]))
+    after = [c for c in times if c is not None and c > t_start]
+    if not after:
         return False
-    return all(t_start <= c <= t_end + SLACK_S for c in changes)
+    return all(c <= t_end + SLACK_S for c in after)
 
 
 def gen_plan(rng, T, roots, gated):
@@ -333,7 +364,15 @@ def gen_plan(rng, T, roots, gated):
         r = rng.random()
         if not owners:
             break
-        if r < 0.35:
+        if r < 0.12 and [t for t in owners if T[t]['kind'] == 'build']:
+            t = rng.choice([t for t in owners if T[t]['kind'] == 'build'])
+            plan.append(('break', t))
+            plan.append(('idle',))
+            if rng.random() < 0.8:
+                for _ in range(rng.randint(0, 2)):
+                    plan.append(('change', rng.choice(owners)))
+                plan.append(('change', t))
+        elif r < 0.35:
             plan.append(('change', rng.choice(owners)))
             if rng.random() < 0.6:
                 plan.append(('idle',))
@@ -350,3 +389,43 @@ def gen_plan(rng, T, roots, gated):
             plan.append(('change', rng.choice(owners)))
     plan.append(('idle',))
     return plan
+
+
+def campaign(ck, prop, n, fixed=(), break_bias=False, workers=8):
+    """runs n generated watch scenarios (after the `fixed` ones); returns (found, known): found = [(obs-like dict, texts)] for
+    `prop`, known = [(finding id, text, obs)] (known-finding classes are reported under C06 only)"""
+    import concurrent.futures, json, random
+    jobs = []
+    for i, (T, roots, gated, plan) in enumerate(fixed):
+        jobs.append((i, T, roots, gated, plan, random.Random(i + 1)))
+    for i in range(len(fixed), n):
+        r = random.Random(ck.rng.getrandbits(48))
+        T, roots = gen_watch_graph(r)
+        gated = r.random() < 0.6
+        plan = gen_plan(r, T, roots, gated)
+        if break_bias:
+            owners = [t for t in closure(T, roots) if T[t]['kind'] == 'build' and T[t]['own_input']]
+            if owners:
+                t = r.choice(owners)
+                plan = [('break', t), ('idle',)] + [st for st in plan if st[0] != 'idle'][:3] + [('idle',)]
+        jobs.append((i, T, roots, gated, plan, r))
+    found, known = [], []
+
+    def one(j):
+        i, T, roots, gated, plan, r = j
+        return j, scenario(r, T, roots, gated, plan, tag='%s_w%d' % (prop, i))
+    with concurrent.futures.ThreadPoolExecutor(max_workers=workers) as ex:
+        for j, (obs, V, kn) in ex.map(one, jobs):
+            i, T, roots, gated, plan, r = j
+            ck.count(('watch', json.dumps(T, sort_keys=True), tuple(roots), gated, json.dumps(plan)), nontrivial=len(plan) > 1,
+                     sample={'targets': T, 'roots': roots, 'gated': gated, 'plan': plan, 'trace': obs['trace'][:14]})
+            for st in plan:
+                ck.tally('watch:step=' + st[0])
+            ck.tally('watch:targets=%d' % len(T))
+            o = {'targets': T, 'roots': roots, 'fail': [], 'gated': gated, 'trace': obs['trace'], 'outcome': 'watch',
+                 'exit_code': None, 'stderr_tail': '', 'plan': plan}
+            for fid, text in kn:
+                known.append((fid, text, o))
+            if prop in V:
+                found.append((o, V[prop]))
+    return found, known
